@@ -608,6 +608,13 @@ impl CallStack {
         self.active_trap_signals.contains(&signal)
     }
 
+    /// Marks as active every trap signal that is active in `other`: for a child shell that is
+    /// still part of the handler it was started from (a command substitution).
+    pub fn inherit_active_trap_signals(&mut self, other: &Self) {
+        self.active_trap_signals
+            .extend(other.active_trap_signals.iter().copied());
+    }
+
     /// Clears the set of active trap signals. This should be called when
     /// creating subshells so they start with fresh trap execution state
     /// independent of the parent shell's currently-executing traps.
